@@ -46,6 +46,8 @@ pub fn format(
         }
     }
 
+    // merge_ranges expects the new ranges in ascending order; nested blocks yield them outer first.
+    open_structure_remove_range.sort_by_key(|range| range.start);
     merge_ranges(&mut ranges, open_structure_remove_range);
     merge_overlapped_ranges(&mut ranges);
 
